@@ -151,10 +151,34 @@ pub fn curated() -> Vec<(&'static str, Spec, bool)> {
         }
         pats.push(s(" +"));
         add("many_luts", true, pats);
+        // K table-tested classes registered before a state that tests TWO such classes at once: the
+        // pair sits at table positions (K, K + 1), i.e. inside one 8-bit table or across two tables
+        const NAMES: [&str; 6] = ["lut_pair_k5", "lut_pair_k6", "lut_pair_k7", "lut_pair_k8", "lut_pair_k15", "lut_pair_k16"];
+        for (name, k) in NAMES.iter().zip([5usize, 6, 7, 8, 15, 16]) {
+            let mut pats = vec![];
+            let digits = "012345678ABCDEFGH";
+            let letters: Vec<char> = "abcdefghijklmnopqrstuvw".chars().collect();
+            for (i, d) in digits.chars().take(k).enumerate() {
+                // five scattered letters, a different set for every filler
+                let cls: String = (0..5).map(|j| letters[(i + 2 * j + (i / 3) * j) % letters.len()]).collect::<std::collections::BTreeSet<char>>().into_iter().collect();
+                pats.push(r(&format!("{d}[{cls}z{}]", (b'A' + i as u8) as char)));
+            }
+            pats.push(r("9[kmoqs]x"));
+            pats.push(r("9[lnprt]y"));
+            add(*name, true, pats);
+        }
         let mut pats: Vec<Pat> = (0..70).map(|i| t(&format!("kw{i:02}"))).collect();
         pats.push(r("[a-z][a-z0-9]*").prio(1));
         pats.push(s("[ \n]+"));
         add("many_tokens", true, pats);
+        // leaf counts around 64 / 128 / 256 (whatever keeps a set of leaves in machine words)
+        let mut pats: Vec<Pat> = (0..130).map(|i| t(&format!("w{i:03}"))).collect();
+        pats.push(r("w[0-9]*").prio(1));
+        pats.push(s(" "));
+        add("many_tokens130", true, pats);
+        let mut pats: Vec<Pat> = (0..258).map(|i| t(&format!("{}{}", (b'a' + (i % 26) as u8) as char, i))).collect();
+        pats.push(r("[a-z][0-9]*").prio(1));
+        add("many_tokens258", true, pats);
     }
     // a look-ahead pattern next to one that continues on every byte the assertion refuses (the state
     // after the prefix has an edge for all 256 bytes, but not all of them lead to an accept)
